@@ -133,8 +133,8 @@ class Ref:
                 del self.curs[c]
             return "dbdestroy ok"
         if op == "sync":
-            return "sync ok"
-        if op in ("nodes", "fsize"):
+            return "sync readonly" if self.ro else "sync ok"
+        if op in ("nodes", "fsize", "fhash", "image"):
             return None
         d = self.dbs.get(int(w[1])) if op != "cur" else None
         if d is not None and getattr(d, "tainted", False):
@@ -175,6 +175,8 @@ class Ref:
             tail = {"get": " -", "getc": " 0 -", "del": ""}[op]
             if d is None:
                 return op + " invalid_args" + tail
+            if op == "del" and self.ro:
+                return "del readonly"
             e = d.ekey(key, comp)
             if isinstance(e, str):
                 return op + " " + e + tail
@@ -191,6 +193,8 @@ class Ref:
         if op == "mset":
             if d is None:
                 return "mset invalid_args"
+            if self.ro:
+                return "mset readonly"
             b = bytes.fromhex(w[2].replace("-", ""))
             if b:
                 d.meta = b
@@ -338,11 +342,15 @@ class Ref:
         if sub == "set":
             nv = bytes.fromhex(w[3].replace("-", ""))
             ph = int(w[5]) if len(w) > 5 else 0
+            if self.ro:
+                return "cur readonly" + (" ph=notcalled" if ph else "")
             if ph == 2:
                 return "cur fail ph=old:" + pval(v)
             d.m[e] = nv
             return "cur ok" + (" ph=old:" + pval(v) if ph == 1 else "")
         if sub == "del":
+            if self.ro:
+                return "cur readonly"
             del d.m[e]
             st[1] = "gap"
             # other cursors sitting on the deleted record are now in a gap as well
